@@ -84,6 +84,11 @@ def run(ctx):
     else:
         linear(ctx, prog)
     consumer(ctx, ctx.program("FULL"))
+    # ArrayBuilder's Drop covers array[0 .. inited): that is the right set only under the builder's invariant (slots below `inited`
+    # written, inited <= N, one bump per write after the capacity assertion) - the C11 BUILDER rule, run here as well
+    from . import c11
+    c11.builder(ctx, ctx.program("FULL"))
+    ctx.floor("BUILDER", 5)
     ctx.floor("LINEAR", 20)
     ctx.floor("CONSUMER", 12)
 
